@@ -362,7 +362,8 @@ def execute(rec):
     slots = [None] * nslots
     specs = [None] * nslots
     trace = hashlib.sha256()
-    stats = {"ops": 0, "builds": 0, "pairs_checked": 0, "identical_pairs": 0, "unbuildable": 0, "queries": 0}
+    stats = {"ops": 0, "builds": 0, "pairs_checked": 0, "identical_pairs": 0, "unbuildable": 0, "queries": 0,
+             "self_unstable_specs": 0}
     out = {"status": "ok"}
 
     # (a) pristine structures: every distinct spec built alone, nothing else of this run alive
@@ -374,7 +375,15 @@ def execute(rec):
                 try:
                     a = build(op["spec"], claripy)
                     pristine[k] = deep(a, claripy)
-                    del a
+                    # claripy's own rewriting of some annotated shapes depends on whether an earlier result is still
+                    # alive (And(<true, relocatable annotation>, x) is folded the first time only): that is the
+                    # rewriter's business (C01/C07), not hash-consing.  A spec that does not even reproduce itself
+                    # while its first build is alive is not judged by oracle (a).
+                    a2 = build(op["spec"], claripy)
+                    if deep(a2, claripy) != pristine[k]:
+                        pristine[k] = False
+                        stats["self_unstable_specs"] += 1
+                    del a, a2
                 except claripy.errors.ClaripyError:
                     pristine[k] = None
                 gc.collect()
@@ -408,7 +417,7 @@ def execute(rec):
                 a = build(op["spec"], claripy)
                 stats["builds"] += 1
                 d = deep(a, claripy)
-                if d != pristine[key]:
+                if pristine[key] is not False and d != pristine[key]:
                     raise Broken("history-dependent-structure", {"op_index": i, "spec": op["spec"], "built": d[:400],
                                                                  "alone": pristine[key][:400]})
                 slots[op["slot"]] = a
